@@ -124,7 +124,7 @@ fn plan(prop: &str) -> Vec<(Eng, u64, u64)> {
         "C04" | "C05" | "C06" | "C09" | "C10" | "C11" | "C12" => vec![(Eng::E3, 150_000, 350_000)],
         "C20" => vec![(Eng::E2U, 70_000, 350_000), (Eng::E2J, 60_000, 120_000)],
         "C16" => vec![(Eng::E4, 60_000, 600_000)],
-        "C08" => vec![(Eng::E1U, 30_000, 6_000), (Eng::E1J, 20_000, 2_500), (Eng::E2U, 15_000, 100_000), (Eng::E5, 12_000, 250_000), (Eng::E5J, 8_000, 150_000)],
+        "C08" => vec![(Eng::E1U, 30_000, 2_000), (Eng::E1J, 20_000, 600), (Eng::E2U, 15_000, 150_000), (Eng::E5, 12_000, 250_000), (Eng::E5J, 8_000, 150_000)], // thorough e1 runs under C08 hold up to 1 100 backtests and re-run each solo: 3-10 runs/s
         _ => vec![],
     }
 }
